@@ -320,8 +320,8 @@ def run_shard(module_name, sub_name, shard, tier, seed):
         state = {'last_fail': None}
 
         def one(case):
-            if time.time() - t0 > budget:
-                out['budget_hit'] = True
+            if time.time() - t0 > budget and state['last_fail'] is None:
+                out['budget_hit'] = True      # remaining examples are skipped (inconclusive); never while shrinking
                 return
             res = run_case(sub, case)
             out['cases'] += 1
@@ -365,6 +365,12 @@ def run_shard(module_name, sub_name, shard, tier, seed):
                     test()
                 except _Violation:
                     pass
+                except BaseException as e:      # noqa
+                    # Hypothesis reports a failure that did not reproduce while shrinking as Flaky; the last failing case
+                    # that was actually observed is still a genuine counterexample and is reported unshrunk
+                    if state['last_fail'] is None or 'Flaky' not in type(e).__name__:
+                        raise
+                    out['flaky'] = True
         if state['last_fail'] is not None:
             case, f = state['last_fail']
             out['violation'] = {'sub': sub_name, 'case': case, 'failure': f.to_json(),
